@@ -216,3 +216,135 @@ def check_clusters(a, clusters, params):
             if npbc not in (2, 3):
                 out.append("prototype cell periodic in %d directions" % npbc)
     return out
+
+
+class ProtoRecorder:
+    """records, for every call of PeriodicFinder._find_proto_cell, the outcomes of the sub-computations its acceptance tree looks
+    at and what it returned (model: lean/MatidModel/ProtoDecision.lean, driver op `protodecide`)"""
+
+    def __enter__(self):
+        import matid.geometry as G
+        from matid.core.periodicfinder import PeriodicFinder
+        from matid.utils.exceptions import MatIDError
+        self.G, self.PF = G, PeriodicFinder
+        self.records = []
+        self.cur = None
+        rec = self
+        self.orig = {n: getattr(PeriodicFinder, n) for n in ("_find_proto_cell", "_find_best_basis", "_find_graphs", "_find_proto_cell_3d", "_find_proto_cell_2d")}
+        self.orig_g = {n: getattr(G, n) for n in ("get_dimensionality", "get_thickness", "get_distances")}
+
+        def best_basis(finder, valid_spans, valid_span_metrics):
+            out = rec.orig["_find_best_basis"](finder, valid_spans, valid_span_metrics)
+            if rec.cur is not None:
+                rec.cur.update(totalValid=len(valid_spans), combo=[int(i) for i in out], spans=np.array(valid_spans, dtype=float))
+            return out
+
+        def graphs(finder, *a, **k):
+            out = rec.orig["_find_graphs"](finder, *a, **k)
+            if rec.cur is not None:
+                rec.cur["seedInGraph"] = out[1] is not None
+            return out
+
+        def cell3(finder, *a, **k):
+            out = rec.orig["_find_proto_cell_3d"](finder, *a, **k)
+            if rec.cur is not None:
+                rec.cur["cellFound"] = out[0] is not None
+            return out
+
+        def cell2(finder, *a, **k):
+            out = rec.orig["_find_proto_cell_2d"](finder, *a, **k)
+            if rec.cur is not None:
+                rec.cur["cellFound"] = out[0] is not None
+            return out
+
+        def dimensionality(*a, **k):
+            try:
+                out = rec.orig_g["get_dimensionality"](*a, **k)
+            except MatIDError:
+                if rec.cur is not None:
+                    rec.cur["dims"].append("error")
+                raise
+            if rec.cur is not None:
+                d = out[0] if k.get("return_clusters") else out
+                rec.cur["dims"].append("none" if d is None else int(d))
+            return out
+
+        def thickness(*a, **k):
+            out = rec.orig_g["get_thickness"](*a, **k)
+            if rec.cur is not None:
+                rec.cur["thick"].append(float(out))
+            return out
+
+        def distances(system, *a, **k):
+            out = rec.orig_g["get_distances"](system, *a, **k)
+            if rec.cur is not None:
+                d = np.array(out.dist_matrix_radii_mic, dtype=float)
+                bases, pbc = np.array(system.get_cell()), system.get_pbc()
+                lens = [np.linalg.norm(bases[i]) for i in range(3) if pbc[i]]
+                if lens:
+                    d[np.diag_indices_from(d)] += min(lens)
+                    rec.cur["min_dist"] = float(d[np.triu_indices(d.shape[0])].min())
+            return out
+
+        def proto(finder, system, seed_index, possible_spans, neighbour_mask, neighbour_factors, bond_threshold, overlap_threshold, pos_tol):
+            outer = rec.cur
+            rec.cur = {"dims": [], "thick": [], "totalValid": 0, "combo": [], "seedInGraph": None, "cellFound": None, "min_dist": None}
+            cur = rec.cur
+            try:
+                out = rec.orig["_find_proto_cell"](finder, system, seed_index, possible_spans, neighbour_mask, neighbour_factors, bond_threshold, overlap_threshold, pos_tol)
+            except Exception:
+                rec.cur = outer
+                raise
+            rec.cur = outer
+            cell = np.array(system.get_cell())
+            pb = np.array(system.get_pbc(), dtype=bool)
+            n_per = int((np.linalg.norm(cell[pb], axis=1) <= finder.max_cell_size).sum()) if pb.any() else 0
+            cur.update(nPerSpans=n_per, overlap_threshold=float(overlap_threshold), max_h=float(finder.max_2d_cell_height),
+                       max_single=float(np.max(finder.max_2d_single_cell_size)),
+                       accepted=None if out[0] is None else (int(out[2]), int(np.sum(out[0].get_pbc())), int(out[3])))
+            rec.records.append(cur)
+            return out
+
+        PeriodicFinder._find_proto_cell = proto
+        PeriodicFinder._find_best_basis = best_basis
+        PeriodicFinder._find_graphs = graphs
+        PeriodicFinder._find_proto_cell_3d = cell3
+        PeriodicFinder._find_proto_cell_2d = cell2
+        G.get_dimensionality = dimensionality
+        G.get_thickness = thickness
+        G.get_distances = distances
+        return self
+
+    def __exit__(self, *a):
+        for n, f in self.orig.items():
+            setattr(self.PF, n, f)
+        for n, f in self.orig_g.items():
+            setattr(self.G, n, f)
+
+
+def proto_line(r):
+    """driver line of one record, or None when the record cannot be expressed (the tree was left by an exception)"""
+    dim = len(r["combo"])
+    tot = r["totalValid"]
+    n_per = r["nPerSpans"]
+    n_sel = sum(1 for i in range(tot - n_per, tot) if i in r["combo"]) if tot else 0
+    dims = list(r["dims"])
+    thick = list(r["thick"])
+    d3 = "error"
+    if dim == 3 and dims:
+        d3 = dims.pop(0)
+    spans = r.get("spans")
+    best = spans[r["combo"]] if spans is not None and len(r["combo"]) else np.zeros((0, 3))
+    if dim == 3 and d3 == 2 and len(thick) >= 3:
+        red = int(np.argmin(thick[:3]))
+        thick = thick[3:]
+        best = best[[i for i in range(3) if i != red]]
+    too_long = bool(len(best) and (np.linalg.norm(best, axis=1) > r["max_single"]).any())
+    d2 = dims[0] if dims else "error"
+    d2r = dims[1] if len(dims) > 1 else "error"
+    too_thick = bool(thick and thick[-1] > r["max_h"])
+    overlap = bool(r["min_dist"] is not None and r["min_dist"] < r["overlap_threshold"])
+    b = lambda v: "1" if v else "0"
+    seed = r["seedInGraph"] if r["seedInGraph"] is not None else False
+    found = r["cellFound"] if r["cellFound"] is not None else False
+    return "protodecide %d %d %s %s %s %d %d %s %s %s %s %s" % (tot, dim, b(seed), b(found), d3, n_per, n_sel, b(too_long), d2, d2r, b(too_thick), b(overlap))
